@@ -342,6 +342,13 @@ def project(pid, case, line):
     return line
 
 
+def invalid_case(case, impl_line):
+    """the harness re-lexes the document with the real lexer and refuses cases whose claimed token list (an INPUT of
+    the model) is not what the lexer produces: a generator bug (rare namespace-bookkeeping corner: nested <svg>), not a
+    disagreement between model and implementation; the check skips a handful and alarms when they become frequent"""
+    return impl_line.startswith("gen-mismatch")
+
+
 def stats(cases, obs):
     from collections import Counter
     c = Counter()
